@@ -146,18 +146,23 @@ func (t *XMPPTransport) Write(p []byte) (n int, err error) {
 }
 
 func (t *XMPPTransport) Close() error {
-	if t.readWriter != nil {
-		_, _ = t.readWriter.Write([]byte(stanza.StreamClose))
+	// The transport object is reused by reconnections: Connect replaces conn, readWriter and closeChan.
+	// Close is about the connection it was called for, in particular after the wait below: a client
+	// reconnected meanwhile must not have its new connection closed by the Close of the previous one.
+	conn, readWriter, closeChan := t.conn, t.readWriter, t.closeChan
+
+	if readWriter != nil {
+		_, _ = readWriter.Write([]byte(stanza.StreamClose))
 	}
 
 	// Try to wait for the stream close tag from the server. After a timeout, disconnect anyway.
 	select {
-	case <-t.closeChan:
+	case <-closeChan:
 	case <-time.After(time.Duration(t.Config.ConnectTimeout) * time.Second):
 	}
 
-	if t.conn != nil {
-		return t.conn.Close()
+	if conn != nil {
+		return conn.Close()
 	}
 	return nil
 }
